@@ -270,6 +270,7 @@ class Recorder:
         self.depth = 0
         self.open = []        # records being filled (innermost last)
         self.explicit_stops = set()  # Stop events sent by a `send $action.Stop()` statement
+        self.explicit_deactivated = set()  # flow ids named by an explicit deactivate statement
         self.stack = []       # uids of the flows whose _abort_flow/_finish_flow is executing
         self.cases = []
         self.released = set() # (flow uid, action uid) released by an EndScope   (oracle ledger)
@@ -363,14 +364,18 @@ class Recorder:
 
         def umim(state, event):
             is_stop = isinstance(event, rec.fl.ActionEvent) and event.name.startswith("Stop") and event.action_uid
+            explicit = False
             if rec.open:
                 if is_stop:
                     rec.emit(["stop", event.action_uid])
                 else:
                     rec.emit(["other", "umim:" + event.name])
             elif is_stop:
-                rec.explicit_stops.add(event.action_uid)
-            return orig_umim(state, event)
+                explicit = True
+            r = orig_umim(state, event)
+            if explicit and isinstance(r, dict) and r.get("uid"):
+                rec.explicit_stops.add(r["uid"])   # a `send $action.Stop()` statement of a running flow
+            return r
 
         def upd(state, event):
             uid = getattr(event, "action_uid", None)
@@ -387,6 +392,16 @@ class Recorder:
                 rec.end(state, r0)
             return r
 
+        orig_proc = sm._process_internal_events_without_default_matchers
+
+        def proc(state, event):
+            # an explicit `deactivate X` / StopFlow(.., deactivate=True) statement: the property speaks about
+            # activators that END, so the "must be restarted" rule is not applied to X afterwards
+            if event.name in ("StopFlow", "FinishFlow") and event.arguments.get("deactivate") and event.arguments.get("flow_id"):
+                rec.explicit_deactivated.add(event.arguments["flow_id"])
+            return orig_proc(state, event)
+
+        sm._process_internal_events_without_default_matchers = proc
         sm._push_internal_event = push
         sm._push_left_internal_event = pushl
         sm._generate_umim_event = umim
@@ -545,6 +560,10 @@ class Oracle:
                     self.started.append(a)
                     self.start_name[a] = t[5:]
             elif t.startswith("Stop") and t.endswith("Action") and a:
+                if e.get("uid") in self.rec.explicit_stops:
+                    # requested by the program itself; it counts as the action's Stop
+                    self.stops[a] = max(self.stops.get(a, 0), 1)
+                    continue
                 if a not in self.start_name:
                     V.append(("stop-for-never-started-action", step, f"{t} for action {a} that was never started", e))
                 elif a in self.finished_delivered:
@@ -562,8 +581,6 @@ class Oracle:
                     if (uid, a) not in self.rec.released:
                         owners.setdefault(a, []).append(uid)
         for a, e in stopped_now:
-            if a in self.rec.explicit_stops:
-                continue          # requested by a `send $action.Stop()` statement of a running flow
             if owners.get(a):
                 V.append(("stop-while-shared-with-running-flow", step,
                           f"{e.get('type')} for action {a} although running flow(s) {[fs[u].flow_id for u in owners[a]]} still use it", e))
@@ -593,7 +610,7 @@ class Oracle:
                     V.append(("activated-flow-outlives-last-activator", step,
                               f"activated flow `{f.flow_id}` still has a running instance although no flow that activated it is running",
                               {"reference_instance": uid}))
-                elif n > 0 and len(live) == 0:
+                elif n > 0 and len(live) == 0 and f.flow_id not in self.rec.explicit_deactivated:
                     V.append(("activated-flow-not-restarted", step,
                               f"activated flow `{f.flow_id}` has no running instance although {n} activation(s) are held by running flows",
                               {"reference_instance": uid}))
@@ -618,6 +635,7 @@ def run_one(sm, fl, U, src, history, policy):
     rec.cases, rec.guards, rec.released = [], [], set()
     rec.depth, rec.open, rec.stack, rec.guard_pending = 0, [], [], None
     rec.explicit_stops = set()
+    rec.explicit_deactivated = set()
     rec._es_open = False
     res = {"cases": [], "guards": [], "viol": [], "steps": 0, "error": None, "stats": {}}
     try:
@@ -693,7 +711,7 @@ def worker_main(infile, outfile):
         for job in jobs:
             if job["job"] in done:
                 continue
-            out.write(json.dumps({"job": job["job"], "begin": True}) + "\n")
+            out.write(json.dumps({"job": job["job"], "begin": True, "t0": time.time()}) + "\n")
             out.flush()
             t0 = time.time()
             r = run_one(sm, fl, U, job["src"], job["history"], job["policy"])
@@ -708,7 +726,7 @@ def worker_main(infile, outfile):
 # main process
 
 
-def run_jobs(jobs, tag, per_job_timeout=20):
+def run_jobs(jobs, tag, per_job_timeout=30):
     """Run jobs in NPROC child processes under `timeout`; a job that hangs is skipped (it belongs
     to C10) and the worker is restarted behind it.  Returns {job id: result}."""
     from concurrent.futures import ThreadPoolExecutor
@@ -724,13 +742,45 @@ def run_jobs(jobs, tag, per_job_timeout=20):
     env["NEMO_GUARDRAILS_VERIF_MAX_STEPS"] = "20000"
 
     def one(k):
+        import subprocess
+
         infile = os.path.join(d, f"in_{k}.json")
         outfile = os.path.join(d, f"out_{k}.jsonl")
         json.dump(shards[k], open(infile, "w"))
         results, hung = {}, []
+        full_env = dict(os.environ)
+        full_env.update(env)
         for attempt in range(len(shards[k]) + 2):
-            budget = 60 + per_job_timeout * len(shards[k])
-            rc, log = C.sh(["timeout", "-k", "5", str(budget), C.PY, HERE, "--worker", infile, outfile], timeout=budget + 30, env=env)
+            p = subprocess.Popen(["timeout", "-k", "5", str(120 + per_job_timeout * len(shards[k])), C.PY, HERE, "--worker", infile, outfile],
+                                 env=full_env, stdout=subprocess.PIPE, stderr=subprocess.STDOUT, text=True, errors="replace",
+                                 start_new_session=True)
+            t_start = time.time()
+            # watchdog: the job that has begun and does not finish within per_job_timeout is killed
+            while p.poll() is None:
+                time.sleep(0.5)
+                begun_at, begun_job, finished = None, None, set()
+                if os.path.exists(outfile):
+                    for line in open(outfile):
+                        try:
+                            r = json.loads(line)
+                        except Exception:
+                            continue
+                        if r.get("begin"):
+                            begun_job, begun_at = r["job"], r.get("t0")
+                        elif "job" in r:
+                            finished.add(r["job"])
+                now = time.time()
+                stuck = (begun_job is not None and begun_job not in finished and begun_at and now - begun_at > per_job_timeout)
+                if stuck or (begun_job is None and now - t_start > 180):
+                    import signal
+
+                    try:
+                        os.killpg(p.pid, signal.SIGKILL)   # `timeout` and the interpreter below it
+                    except ProcessLookupError:
+                        pass
+                    break
+            log = (p.communicate()[0] or "")[-2000:]
+            rc = p.returncode
             begun = None
             results = {}
             fatal = None
@@ -753,11 +803,11 @@ def run_jobs(jobs, tag, per_job_timeout=20):
                 return results, hung, None
             if rc == 0:
                 return results, hung, f"worker exited 0 with {len(missing)} jobs missing: {log[-500:]}"
-            # the job that had begun and did not finish is the culprit: mark and continue behind it
+            # the job that had begun and did not finish is the culprit: mark it and continue behind it
             culprit = begun if begun is not None and begun not in results else missing[0]["job"]
             hung.append(culprit)
             with open(outfile, "a") as f:
-                f.write(json.dumps({"job": culprit, "error": "hang:timeout" if rc in (124, 137) else f"crash:rc={rc}:{log[-300:]}",
+                f.write(json.dumps({"job": culprit, "error": "hang:timeout" if rc in (124, 137, -9) else f"crash:rc={rc}:{log[-300:]}",
                                     "cases": [], "guards": [], "viol": [], "steps": 0, "stats": {}}) + "\n")
         return results, hung, "too many restarts"
 
@@ -897,7 +947,7 @@ def run(tier, seed, replay=None):
     if not okm:
         out.add_broken("coq:theories/V2/LifeRun.v", logm)
 
-    nprog = 500 if tier == "quick" else 4000
+    nprog = 1500 if tier == "quick" else 8000
     maxlen = 6 if tier == "quick" else 10
     jobs = []
     corpus_dir = os.path.join(C.VERIF, "corpus", PID)
@@ -938,6 +988,7 @@ def run(tier, seed, replay=None):
     skipped = {}
     opmix, errs = {}, {}
     hyp_bad = {}
+    escaped = []
     stats = {"programs": 0, "steps": 0, "instances": 0, "actions": 0, "stops": 0, "parse_errors": 0, "hangs": 0,
              "runs_with_shared_action": 0, "exceptions": 0}
     for job in jobs:
@@ -953,10 +1004,11 @@ def run(tier, seed, replay=None):
             if kind in ("hang", "crash"):
                 stats["hangs"] += 1
             if kind == "exception":
+                # an exception that escapes run_to_completion is C10's statement, not C06's: the run is
+                # cut at that event, everything observed before it is still checked, and it is reported
                 stats["exceptions"] += 1
-                out.findings.append(C.Finding("exception-escapes-run_to_completion:" + r["error"].split(":")[1],
-                                              "an exception escaped run_to_completion: " + r["error"],
-                                              {"src": job["src"], "history": job["history"], "policy": job["policy"], "error": r["error"]}))
+                if len(escaped) < 5:
+                    escaped.append({"error": r["error"], "src": job["src"], "history": job["history"], "policy": job["policy"]})
         stats["programs"] += 1
         stats["steps"] += r.get("steps", 0)
         for k in ("instances", "actions", "stops"):
@@ -1030,7 +1082,8 @@ def run(tier, seed, replay=None):
                                "errors": errs, "hangs_skipped_as_C10": stats["hangs"], "parse_errors": stats["parse_errors"],
                                "instances_total": stats["instances"], "actions_started": stats["actions"], "stops_observed": stats["stops"],
                                "runs_with_shared_action": stats["runs_with_shared_action"], "skipped": skipped,
-                               "guard_cases": len(gterms)},
+                               "guard_cases": len(gterms),
+                               "exceptions_escaping_run_to_completion(C10)": escaped},
         "traces_validated_against_impl": len(terms) + len(gterms),
         "correspondence_disagreements": len(disagreements),
         "oracle_violations": len(out.findings),
